@@ -178,7 +178,11 @@ def check_value(ctx, kind, sub, v):
     back, err = roundtrip({line: stored})
     form = RTForm()
     fld = {f.base_name(): f for f in form.fields()}[line]
-    text = fld.to_string(stored)
+    try:
+        text = fld.to_string(stored)
+    except Exception as e:
+        ctx.violation(f'value:{kind}:to_string-raises:{type(e).__name__}', f'{kind} value {stored!r} (a value the line can hold) cannot be written: to_string raises {e!r}', case)
+        return
     if text != repr(stored) or (kind == 'text' and any(c in stored for c in '%#;=:[\n')):
         ctx.nt(f'{kind}|{sub}|{text}')
     ctx.count('kind:' + kind)
